@@ -183,6 +183,11 @@ def verify_class(rep, it, cls, prop, conv, conv_ok, carved):
                     rep.extra.setdefault("carved_out", []).append(full)
                     continue
                 st, model, dt = it.prove(p.pc, cl if not isinstance(cl, bool) else cl)
+                if st == "unknown":
+                    st, model, dt = it.prove(p.pc, cl, timeout_ms=120000)
+                    if st == "unknown":
+                        rep.downgraded.append({"function": fname, "reason": [f"solver undecided within its budget: {nm}"], "downgraded": "proof->undecided (solver budget)"})
+                        continue
                 if st.startswith("discharged"):
                     rep.ok(full, "z3", dt, "top", fname)
                 else:
@@ -197,6 +202,11 @@ def verify_class(rep, it, cls, prop, conv, conv_ok, carved):
             if not (issubclass(exc.cls, ValueError) or issubclass(exc.cls, TypeError)):
                 cl = False
             st, model, dt = it.prove(p.pc, cl)
+            if st == "unknown":
+                st, model, dt = it.prove(p.pc, cl, timeout_ms=120000)
+                if st == "unknown":
+                    rep.downgraded.append({"function": fname, "reason": [f"solver undecided within its budget: raises:{exc.cls.__name__}"], "downgraded": "proof->undecided (solver budget)"})
+                    continue
             if st.startswith("discharged"):
                 rep.ok(full, "z3", dt, "top", fname)
             else:
